@@ -70,6 +70,52 @@ func main() {
 				os.Exit(1)
 			}
 			fmt.Println("no violation")
+		case "C04":
+			var rp robustReplay
+			a.LoadReplay(&rp)
+			progs := append(handPrograms(), generatedPrograms(u)...)
+			for _, w := range u.Wrappers {
+				tt := w
+				progs = append(progs, program{"gen:" + w.Name, func(r restlicodec.Reader) error { _, err := decodeInto(tt, r); return err }})
+			}
+			var mk func() (restlicodec.Reader, error)
+			switch {
+			case rp.Entry == "NewRor2Reader":
+				mk = ror2Entries()[0].mk(rp.Input)
+			case rp.Entry == "ParseQueryParams[p]":
+				mk = ror2Entries()[1].mk(rp.Input)
+			case rp.Entry == "NewJsonReader":
+				mk = jsonEntry().mk(rp.Input)
+			case strings.HasPrefix(rp.Entry, "reader:"):
+				f := strings.TrimPrefix(rp.Entry, "reader:")
+				mk = func() (restlicodec.Reader, error) { return newReader(f, rp.Input) }
+			case rp.Entry == "ParseQueryParams":
+				mk = func() (restlicodec.Reader, error) { _, err := restlicodec.ParseQueryParams(rp.Input); return nil, err }
+			default:
+				report.Internal("replay of entry %q is not supported (untyped values are not serialisable)", rp.Entry)
+			}
+			bad := false
+			for _, p := range progs {
+				if p.name != rp.Program && rp.Program != "" {
+					continue
+				}
+				kind, site, detail := runProgram(mk, p)
+				fmt.Printf("entry %s program %s input %q -> %s %s %s\n", rp.Entry, p.name, rp.Input, kind, site, detail)
+				if kind != "" {
+					bad = true
+				}
+				break
+			}
+			if rp.Program == "" {
+				kind, site, detail := runProgram(mk, program{"none", func(restlicodec.Reader) error { return nil }})
+				fmt.Printf("entry %s input %q -> %s %s %s\n", rp.Entry, rp.Input, kind, site, detail)
+				bad = bad || kind != ""
+			}
+			if bad {
+				fmt.Println("FAIL")
+				os.Exit(1)
+			}
+			fmt.Println("no violation")
 		case "C06":
 			var rp reqReplay
 			a.LoadReplay(&rp)
@@ -157,6 +203,8 @@ func main() {
 		partC01(a, rep, univName, u)
 	case "C03":
 		partC03(a, rep, univName, u)
+	case "C04":
+		partC04(a, rep, univName, u)
 	case "C06":
 		partC06(a, rep, univName, u)
 	case "C10":
